@@ -432,7 +432,7 @@ def _targets():
     add("DataFrame.write_column(index)", lambda c, v: c["df"].write_column([5] * len(c["df"]), index=v), df_reset)
     add("DataFrame.write_cell(cell)", lambda c, v: c["df"].write_cell(v, position=(0, 0)), df_reset)
     add("DataFrame.write_cell(position)", lambda c, v: c["df"].write_cell(5, position=v), df_reset)
-    add("DataFrame.units", _setter("df", "units"), lambda c: setattr(c["df"], "units", None))
+    add("DataFrame.units", _setter("df", "units"), lambda c: setattr(c["df"], "units", ["kV", "ms"]))
     add("DataFrame.append_column(column)", lambda c, v: c["df2"].append_column(v, "extra", int),
         None)
     add("DataFrame.append_column(datatype)", lambda c, v: c["df2"].append_column([1] * len(c["df2"]), "extra", v), None)
@@ -633,7 +633,7 @@ def _calls():
     add("DataFrame.append_column", lambda c, **kw: c["df2"].append_column(**kw),
         lambda c: dict(column=[1.5] * len(c["df2"]), name="extra", datatype=float), None)
     add("DataFrame.units=", lambda c, **kw: setattr(c["df"], "units", kw["units"]),
-        lambda c: dict(units=["mV", "s"]), lambda c: setattr(c["df"], "units", None))
+        lambda c: dict(units=["mV", "s"]), lambda c: setattr(c["df"], "units", ["kV", "ms"]))
     # --- link lists: the item(s) in every spelling an entity has
 
     def unlink(key, cont, keep):
